@@ -28,6 +28,7 @@ def execute(c):
     xi = np.array([ND if v is None else v for v in vals], dtype="int16")
     xf = np.array([np.nan if v is None else float(v) for v in vals], dtype=c.get("fdtype", "float64"))
     rs, apis = [], []
+    watch = core.Watch(xi, xf)
 
     def put(name, r):
         apis.append(name)
@@ -50,6 +51,7 @@ def execute(c):
                 put("acc_dask_timechunked", da.chunk({"time": 2}).hdc.algo.autocorr().compute())
     c["data"] = ["nan" if v is None else str(v) for v in vals]
     c["rs"], c["apis"] = rs, apis
+    c["inmod"] = watch.changed()
     c["f64"] = [a.startswith("1d_") for a in apis]   # autocorr_1d returns the unrounded float64
     return c
 
